@@ -148,7 +148,7 @@ def jobs(tier, seed, excluded=()):
     tmo = 150 if tier == "quick" else 500
 
     def req_params(j):
-        return [("k%d" % j, "int"), ("vc%d" % j, "int"), ("t%d" % j, "int"), ("vt%d" % j, "int"), ("i%d" % j, "int"), ("s%d" % j, "int"), ("b%d" % j, "bool")]
+        return [("qk%d" % j, "int"), ("qvc%d" % j, "int"), ("qt%d" % j, "int"), ("qvt%d" % j, "int"), ("qi%d" % j, "int"), ("qs%d" % j, "int"), ("qb%d" % j, "bool")]
 
     for tid in trees:
         names = _names(tid)
@@ -156,7 +156,7 @@ def jobs(tier, seed, excluded=()):
         big = tid.startswith("F:")
 
         def pre(j, vc, t, vt, iv=(0, 3), sv=(0, 5)):
-            return "k%d == 0 and %d <= vc%d <= %d and %d <= t%d <= %d and %d <= vt%d <= %d and %d <= i%d <= %d and %d <= s%d <= %d" % (j, vc[0], j, vc[1], t[0], j, t[1], vt[0], j, vt[1], iv[0], j, iv[1], sv[0], j, sv[1])
+            return "qk%d == 0 and %d <= qvc%d <= %d and %d <= qt%d <= %d and %d <= qvt%d <= %d and %d <= qi%d <= %d and %d <= qs%d <= %d" % (j, vc[0], j, vc[1], t[0], j, t[1], vt[0], j, vt[1], iv[0], j, iv[1], sv[0], j, sv[1])
 
         def smp(r, spec):
             o = []
